@@ -288,6 +288,74 @@ pub fn run(run: &mut Run) {
                 results.push((format!("perm {:?} helpers_first={}", perm, helpers_first), r, text));
             }
         }
+        // across files: g1 lives in an imported file (cyclic import back to main), every order of that
+        // file's statements x a sample of main's orders with the `use` line at a permuted position
+        if lab.n == 3 {
+            let main_defs: Vec<String> = b
+                .main
+                .iter()
+                .chain(b.helpers.iter())
+                .filter_map(|t| match t {
+                    Top::Def { name, .. } if name != "g1" && name != "start" => Some(name.clone()),
+                    _ => None,
+                })
+                .collect();
+            let qualify = |tops: &mut Vec<Top>, names: &[String], ns: &str| {
+                let mut p = Program { tops: std::mem::take(tops) };
+                crate::scope::visit(&mut p, &mut |ev| {
+                    if let crate::scope::Ev::Use(n) = ev {
+                        if names.iter().any(|x| x == n) {
+                            *n = format!("{}.{}", ns, n);
+                        }
+                    }
+                });
+                *tops = p.tops;
+            };
+            let g1 = b.main.iter().find(|t| matches!(t, Top::Def { name, .. } if name == "g1")).cloned().unwrap();
+            let mut other_items = vec![Top::Raw("use main".into()), ext(), g1];
+            // blob / enum types used by g1's initialiser come from main too
+            qualify(&mut other_items, &main_defs, "main");
+            let other_text_of = |perm: &Vec<usize>| -> String {
+                let tops: Vec<Top> = perm.iter().map(|k| other_items[*k].clone()).collect();
+                print_program(&Program { tops }).text.replace("P {", "main.P {").replace("(V.", "(main.V.").replace(" V.", " main.V.")
+            };
+            let mut main_items: Vec<Top> = b.main.iter().filter(|t| !matches!(t, Top::Def { name, .. } if name == "g1")).cloned().collect();
+            main_items.extend(b.helpers.iter().cloned());
+            main_items.push(Top::Raw("use other".into()));
+            qualify(&mut main_items, &["g1".to_string()], "other");
+            let mperms = permutations(main_items.len().min(6));
+            for (pi, mp) in mperms.iter().enumerate() {
+                if pi % 60 != li % 60 && pi % 60 != (li + 17) % 60 {
+                    continue;
+                }
+                for op in permutations(3) {
+                    let mut tops = vec![ext()];
+                    // permute the first six items, keep the rest (helpers) in order after them
+                    for k in mp {
+                        tops.push(main_items[*k].clone());
+                    }
+                    for k in mp.len()..main_items.len() {
+                        tops.push(main_items[k].clone());
+                    }
+                    let mut files = Files::new();
+                    files.insert(MAIN.to_string(), print_program(&Program { tops }).text);
+                    files.insert("/p/other.sy".to_string(), other_text_of(&op));
+                    acc.evaluations += 1;
+                    let r = match compile(&files, MAIN, true) {
+                        Outcome::Ok(lua) => {
+                            let lr = run_lua(&lua, 2_000_000);
+                            match lr.end {
+                                LuaEnd::Done => Ok(lr.out),
+                                other => Ok(vec![format!("!!{:?}", other)].into_iter().chain(lr.out.into_iter()).collect()),
+                            }
+                        }
+                        Outcome::Err { errs, .. } => Err(errs.iter().map(|e| e.dbg.clone()).collect::<Vec<_>>().join(" | ")),
+                        Outcome::Panic { msg, .. } => Err(format!("PANIC {}", msg)),
+                    };
+                    results.push((format!("two files: main order {:?}, other order {:?}", mp, op), r, format!("--- main.sy\n{}--- other.sy\n{}", files[MAIN], files["/p/other.sy"])));
+                }
+            }
+        }
         acc.nontrivial(fnv(results[0].2.as_bytes()));
         let accepted = results.iter().filter(|r| r.1.is_ok()).count();
         let mut fail = |acc: &mut Stats, sig: &str, detail: String, text: &str, preds: Vec<String>| {
